@@ -1,7 +1,7 @@
 #!/bin/sh
-# usage: tools/seedtest.sh <id e.g. C02> "<props to run>" — confirm a seeded change in a fresh worktree, then run checks against it
+# usage: tools/seedtest.sh <name e.g. C02 or C02b> "<props to run>" [dir with patch.diff demo meta.json] — confirm a seeded change in a fresh worktree, then run checks against it
 cd "$(dirname "$0")/.." || exit 2
-id=$1; props=$2; out=/tmp/seed_${id}_out; wt=/tmp/st_$id
+id=$1; props=$2; out=${3:-/tmp/seed_${id}_out}; wt=/tmp/st_$id
 mkdir -p seeded/$id
 [ -f $out/patch.diff ] && cp $out/patch.diff $out/demo.py $out/demo $out/meta.json seeded/$id/ 2>/dev/null
 if [ -f seeded/$id/demo ]; then rundemo() { chmod +x /verif/seeded/$id/demo; PYTHONPATH=$wt timeout 900 /verif/seeded/$id/demo $wt; }
